@@ -40,11 +40,26 @@ class Reporter:
         return rid
 
     def ok(self, rid, key, what=None):
-        self.rules[rid]["instances"].append({"key": key, "ok": True, "what": what})
+        r = self.rules[rid]
+        if key in r.setdefault("_keys", {}):
+            return
+        r["_keys"][key] = True
+        r["instances"].append({"key": key, "ok": True, "what": what})
 
     def bad(self, rid, key, message, site=None, detail=None):
-        self.rules[rid]["instances"].append({"key": key, "ok": False, "what": message})
-        self.rules[rid]["violations"].append(Finding(rid, key, message, site, detail))
+        r = self.rules[rid]
+        seen = r.setdefault("_keys", {})
+        if seen.get(key) is False:
+            return
+        if seen.get(key) is True:
+            for i in r["instances"]:
+                if i["key"] == key:
+                    i["ok"] = False
+                    i["what"] = message
+        else:
+            r["instances"].append({"key": key, "ok": False, "what": message})
+        seen[key] = False
+        r["violations"].append(Finding(rid, key, message, site, detail))
 
     def check(self, rid, key, cond, message, site=None, detail=None, what=None):
         if cond:
